@@ -7,17 +7,18 @@ envelope), §5 (static proxy note), §6 (client).  Everything is decided on the 
 * RF-TABLE: ``AuthReason`` is exactly the §3 closed set.
 * RF-ABS pipeline (finite-domain evaluation of middleware + serializer from their AST): for every
   exception kind an authenticator raises (AuthFailure x 6 reasons, bare ValueError, bare
-  PermissionError, ProofError, AuthUnavailableError, a bug) x Accept in {absent, */*, json, html}
-  x proxy note {configured, not}: status family (401 / 503+Retry-After / propagates), reason header in
-  the closed set and equal to the JSON ``reason``, ``Cache-Control: no-store``, note header/body
-  present iff configured and byte-identical across all failures, HTML only on request, detail escaped.
+  PermissionError, ProofError, AuthUnavailableError) x Accept in {absent, */*, json, html, browser}
+  x proxy note {configured, not}: status family (401 / 503), reason header in the closed set and
+  equal to the JSON ``reason``, ``Cache-Control: no-store``, note header/body present iff configured
+  and byte-identical across all failures, HTML only on request, detail escaped.
 * RF-ABS composition: ``_combine_reasons`` over *all* code sequences of length <= 3; the chain closure
   over all 1..3-member chains of {6 AuthFailure codes collapsed to 3 classes, bare ValueError,
   success, PermissionError, AuthUnavailableError}; ``classify_auth_failure`` over declared /
   undeclared / forged reason attributes; proxy-header declarations carried through chain / require_all
   / allow-vs-require gates; ``build_proxy_hint`` empty iff no header.
-* RF-DOM: in ``make_wsgi_app`` the serializer is installed on every path to ``return app`` with a note
-  computed from configuration names only.
+* RF-DOM / RF-TAINT: in ``make_wsgi_app`` the serializer is installed on every path on which an
+  authenticator may be configured, with a note built by ``build_proxy_hint`` from the installed
+  authenticator's declared proxy headers.
 * client: ``_parse_unauthorized`` / ``_open_response_stream(…, 401)`` over envelope, unknown code,
   non-dict JSON, non-JSON, HTML, empty, invalid UTF-8 and deeply nested bodies always yield an
   AuthenticationError with a closed-set reason (RF-EXC: json.loads' RecursionError included).
@@ -35,7 +36,7 @@ from ..exc import ExcModel, handler_reraises
 from ..loader import AnalysisError, walk_scope
 from ..resolve import last_attr
 from ..util import calls, names_in, try_protecting, txt
-from ._g1_helpers import Ev, ExcObj, Obj, Opaque, Raised, raw_model, spec_table
+from ._g1_helpers import anchor_fn, Ev, ExcObj, Obj, Opaque, Raised, raw_model, spec_table
 
 META = {
     "text": "Finite-domain evaluation, from the AST, of the whole 401 pipeline (_AuthMiddleware.process_request -> error serializer) over every "
@@ -105,7 +106,7 @@ def _request(accept=None, context=None):
                methods={"get_header": lambda name, default=None, **kw: accept if str(name).lower() == "accept" else default})
 
 
-def run(ctx: Ctx) -> None:  # noqa: C901
+def _run_impl(ctx: Ctx, evs: list) -> None:  # noqa: C901
     ctx.explanation = META["text"]
     ctx.not_decided = ("authenticator stacks deeper than 3 or built from third-party combinators; 401s produced by user resources / foreign middleware; "
                        "WWW-Authenticate challenges; CORS exposure of the two headers.")
@@ -117,8 +118,9 @@ def run(ctx: Ctx) -> None:  # noqa: C901
     ctx.trusted += ["G1 evaluator (sa/props/_g1_helpers.py)"]
     model = ExcModel(ctx.repo, ctx.res)
     ev = Ev(ctx, externals=_mk_externals(), overrides={})
-    proc_fi = ctx.fn(PROCESS)
-    ser_fi = ctx.fn(f"{SERIALIZER}._serialize")
+    evs.append(ev)
+    proc_fi = anchor_fn(ctx, PROCESS)
+    ser_fi = anchor_fn(ctx, f"{SERIALIZER}._serialize")
     R = {m.upper(): ev.enum_member(f"{UNAUTH}:AuthReason", m.upper()) for m in CLOSED_SET}
 
     # ------------------------------------------------------------------ closed set == spec §3
@@ -282,7 +284,7 @@ def run(ctx: Ctx) -> None:  # noqa: C901
 
     # ------------------------------------------------------------------ _combine_reasons: all sequences of length <= 3
     combine = ev.func(f"{BEARER}:_combine_reasons")
-    combine_fi = ctx.fn(f"{BEARER}:_combine_reasons")
+    combine_fi = anchor_fn(ctx, f"{BEARER}:_combine_reasons")
     members = list(R.values())
     MISSING = R["MISSING_CREDENTIAL"]
     bad_all, bad_first, bad_closed, n_seq = [], [], [], 0
@@ -310,7 +312,7 @@ def run(ctx: Ctx) -> None:  # noqa: C901
 
     # ------------------------------------------------------------------ chain closure: all chains of <= 3 member behaviours
     chain = ev.func(f"{BEARER}:chain_authenticate")
-    chain_auth_fi = ctx.fn(f"{BEARER}:chain_authenticate.authenticate")
+    chain_auth_fi = anchor_fn(ctx, f"{BEARER}:chain_authenticate.authenticate")
     classify = ev.func(f"{UNAUTH}:classify_auth_failure")
     good_ctx = ev.call(auth_ctx, domain="bearer", authenticated=True, principal="alice")
     behaviours = {
@@ -371,7 +373,7 @@ def run(ctx: Ctx) -> None:  # noqa: C901
         ctx.check(not bad, "RF-ABS", inst, chain_auth_fi, None, ok=f"holds on all {n_ch} chains of 1-3 members over 7 member behaviours", bad="; ".join(bad[:3]) + (f" (+{len(bad) - 3} more)" if len(bad) > 3 else ""))
 
     # ------------------------------------------------------------------ classifier
-    classify_fi = ctx.fn(f"{UNAUTH}:classify_auth_failure")
+    classify_fi = anchor_fn(ctx, f"{UNAUTH}:classify_auth_failure")
     cl_bad = []
     for name, member in R.items():
         ev.reset()
@@ -394,7 +396,7 @@ def run(ctx: Ctx) -> None:  # noqa: C901
 
     # ------------------------------------------------------------------ proxy note: derived from declarations, carried through composition
     hint_fn = ev.func(f"{UNAUTH}:build_proxy_hint")
-    hint_fi = ctx.fn(f"{UNAUTH}:build_proxy_hint")
+    hint_fi = anchor_fn(ctx, f"{UNAUTH}:build_proxy_hint")
     headers_of = ev.func(f"{UNAUTH}:proxy_headers_of")
     ev.reset()
     h0, h1, h2 = ev.call(hint_fn, []), ev.call(hint_fn, ["X-Proxy-A"]), ev.call(hint_fn, ["X-Proxy-A", "X-Proxy-B", "X-Proxy-A"])
@@ -425,11 +427,11 @@ def run(ctx: Ctx) -> None:  # noqa: C901
         ("chain-of-require_all-carries", decl(ev.call(chain, ev.call(require_all, gates["require"], plain), plain)), (PH,)),
     ]
     for key, got, want in carry:
-        ctx.check(tuple(x.lower() for x in got) == tuple(x.lower() for x in want), "RF-ABS", f"proxy-declaration:{key}", ctx.fn(f"{UNAUTH}:declare_proxy_headers"), None,
+        ctx.check(tuple(x.lower() for x in got) == tuple(x.lower() for x in want), "RF-ABS", f"proxy-declaration:{key}", anchor_fn(ctx, f"{UNAUTH}:declare_proxy_headers"), None,
                   ok=f"declared proxy headers = {want!r}", bad=f"declared proxy headers = {got!r}, expected {want!r}: the 401 note would be {'missing although the service depends on a proxy' if want else 'present although nothing depends on a proxy'}")
 
     # make_wsgi_app: serializer installed on every path, note computed from configuration only
-    fac_fi = ctx.fn(f"{FACTORY}:make_wsgi_app")
+    fac_fi = anchor_fn(ctx, f"{FACTORY}:make_wsgi_app")
     fcfg = cfg_of(fac_fi.node)
     installs = [c for c in calls(fac_fi) if last_attr(c) == "set_error_serializer"]
     if not installs:
@@ -498,7 +500,7 @@ def run(ctx: Ctx) -> None:  # noqa: C901
 
     # ------------------------------------------------------------------ client
     parse = ev.func(f"{CLIENT}:_parse_unauthorized")
-    parse_fi = ctx.fn(f"{CLIENT}:_parse_unauthorized")
+    parse_fi = anchor_fn(ctx, f"{CLIENT}:_parse_unauthorized")
     open_stream = ev.func(f"{CLIENT}:_open_response_stream")
 
     def parsed(body: bytes):
@@ -561,7 +563,7 @@ def run(ctx: Ctx) -> None:  # noqa: C901
     ev.reset()
     k, v = ev.outcome(open_stream, b'{"error":"unauthorized","reason":"expired_credential","detail":"d"}', 401)
     ok_os = k == "raise" and isinstance(v, ExcObj) and v.clsname == "AuthenticationError" and v.attrs.get("reason") is R["EXPIRED_CREDENTIAL"]
-    ctx.check(ok_os, "RF-ABS", "client:401-never-parsed-as-arrow", ctx.fn(f"{CLIENT}:_open_response_stream"), None,
+    ctx.check(ok_os, "RF-ABS", "client:401-never-parsed-as-arrow", anchor_fn(ctx, f"{CLIENT}:_open_response_stream"), None,
               ok="_open_response_stream(…, 401) raises the parsed AuthenticationError before touching the IPC reader", bad=f"_open_response_stream(envelope, 401) -> {k} {v!r}")
 
 
@@ -599,3 +601,12 @@ def _roots(fi, e: ast.AST, _d: int = 0) -> set[str]:
         else:
             out.add(nm)
     return out
+
+
+def run(ctx: Ctx) -> None:
+    evs: list = []
+    try:
+        _run_impl(ctx, evs)
+    finally:
+        for e in evs:
+            ctx.note(e.stats())
